@@ -771,7 +771,13 @@ theorem bcastRows_mem (t : List Nat) (n : Nat) (rshape : List Nat) (rows out : L
             intro x hx
             rw [List.eq_of_mem_replicate hx]; simp
           · cases h
-        · cases h
+        · split at h
+          · rename_i out' hg
+            simp only [pure, Except.pure, Except.ok.injEq] at h; subst h
+            intro x hx
+            obtain ⟨j, _, hj⟩ := gather_mem hg hx
+            exact List.mem_of_getElem? hj
+          · cases h
 
 /-- assignment preserves the invariant -/
 theorem setitem_inv (p rhs p' : Points α) (ix : Index) (hp : p.Inv) (hr : rhs.WF)
